@@ -381,7 +381,11 @@ func (e *Exec) zz(name string, args []Value) Value {
 		n := e.concInt(args[1])
 		t := e.input(e.labelArg(args[0]), 64)
 		e.assume(e.P.Cmp("bvult", t, e.P.BV(64, uint64(n))))
-		return IntV{T: t, Signed: true}
+		if n <= 1 {
+			return IntV{T: e.P.BV(64, 0), Signed: true}
+		}
+		// a catalogue pick: fork over its values right away so that everything downstream is concrete
+		return IntV{T: e.P.BV(64, e.concretize(t)), Signed: true}
 	case "Str":
 		return StrV{Sym: e.input(e.labelArg(args[0]), 64)}
 	case "Time":
